@@ -90,30 +90,47 @@ def same_table(db, ctx):
                "%s: searches with self.checker=%s, indexes self.replacements[m.pattern()]=%s, passes that value to the editor=%s"
                % (nm, uses_checker, idx_ok, rep_ok), fn=f)
     rl = db.one("read_rewrite_lists", PLUGIN)
-    paired = False
+    # by role: K = the collection the automaton is built from, V = the collection stored as self.replacements (whatever the two
+    # locals are called); pattern i of the automaton must be the key of value i, so K and V are filled pairwise
+    from ..db import deref_all
+
+    def base_local(e):
+        d = peel(deref_all(e)) if isinstance(e, dict) else None
+        while isinstance(d, dict) and d.get("k") == "MethodCall" and d.get("method") in ("clone", "iter", "into_iter", "as_slice", "to_vec", "to_owned"):
+            d = peel(d["recv"])
+        d = peel(d) if isinstance(d, dict) else d
+        while isinstance(d, dict) and d.get("k") in ("AddrOf", "Deref"):
+            d = peel(d["e"])
+        return d if isinstance(d, dict) and d.get("k") == "Path" and d.get("res") == "local" else None
+    K = V = None
+    built_from = assigned = None
     for n, ps in walk(rl.hir):
-        fl = for_loop_parts(n) if n.get("k") == "Match" else None
-        if fl:
-            it, pat, body = fl
-            pushes = [render(p["recv"]) for p, _ in walk(body) if p.get("k") == "MethodCall" and p.get("method") == "push"]
-            if set(pushes) >= {"keys", "values"}:
-                paired = True
-    # the same pairing written as one `.map(|(k, v)| (..k.., ..v..)).unzip()` over the map
-    for n, ps in walk(rl.hir):
-        if n.get("k") == "MethodCall" and n.get("method") == "unzip" and "replace_char_map" in render(n, x=True):
-            paired = True
-    ctx.ob("read_rewrite_lists|pairwise-push", paired, "keys and values are pushed in the same loop iteration: %s" % paired, fn=rl)
-    # the automaton is built from `keys`, replacements assigned from `values`
-    built_from = None
-    for n, ps in walk(rl.hir):
-        if n.get("k") == "MethodCall" and n.get("method") == "build" and "AhoCorasickBuilder" in (n.get("rty") or ""):
-            built_from = render(n["args"][0]) if n["args"] else None
-    assigned = None
-    for n, ps in walk(rl.hir):
+        if n.get("k") == "MethodCall" and n.get("method") == "build" and "AhoCorasickBuilder" in (n.get("rty") or "") and n["args"]:
+            built_from = render(n["args"][0])
+            K = base_local(n["args"][0])
         if n.get("k") == "Assign" and peel(n["l"]).get("name") == "replacements":
             assigned = render(n["r"])
-    ctx.ob("read_rewrite_lists|keys->automaton,values->table", built_from is not None and "keys" in built_from and assigned == "values",
-           "automaton built from `%s`, self.replacements assigned `%s`" % (built_from, assigned), fn=rl)
+            V = base_local(n["r"])
+    paired = False
+    if K is not None and V is not None and K.get("lid") != V.get("lid"):
+        for n, ps in walk(rl.hir):
+            fl = for_loop_parts(n) if n.get("k") == "Match" else None
+            if fl:
+                it, pat, body = fl
+                pb = pat_bindings(pat)
+                pushes = {peel(p["recv"]).get("lid"): p for p, _ in walk(body) if p.get("k") == "MethodCall" and p.get("method") == "push" and p.get("args")}
+                if {K["lid"], V["lid"]} <= set(pushes) and len(pb) >= 2:
+                    # the map yields (key, value): the key goes to K (patterns), the value to V (replacements) — not swapped
+                    uses = lambda call, lid: any(x.get("k") == "Path" and x.get("res") == "local" and x.get("lid") == lid for x, _ in walk(call["args"][0]))
+                    paired = uses(pushes[K["lid"]], pb[0][0]) and uses(pushes[V["lid"]], pb[1][0]) \
+                        and not uses(pushes[K["lid"]], pb[1][0]) and not uses(pushes[V["lid"]], pb[0][0])
+        # the same pairing written as one `.map(|(k, v)| (..k.., ..v..)).unzip()` into (K, V)
+        for n, ps in walk(rl.hir):
+            if n.get("k") == "MethodCall" and n.get("method") == "unzip" and "replace_char_map" in render(n, x=True):
+                paired = True
+    ctx.ob("read_rewrite_lists|pairwise-push", paired, "the automaton's patterns and the replacement table are filled in the same loop iteration: %s" % paired, fn=rl)
+    ctx.ob("read_rewrite_lists|keys->automaton,values->table", K is not None and V is not None and K.get("lid") != V.get("lid"),
+           "automaton built from `%s`, self.replacements assigned `%s` (two distinct collections)" % (built_from, assigned), fn=rl)
     ctx.floor(4)
 
 
@@ -338,30 +355,52 @@ def per_char(db, ctx):
     bad = any(n.get("k") == "MethodCall" and n.get("method") == "to_lowercase" and mentions(n["recv"], lambda x: x.get("k") == "MethodCall" and x.get("method") == "nfkc")
               for n, _ in walk(sl.hir))
     ctx.ob("replace_slow|lowercase-before-nfkc", order_ok and not bad, "combined case applies `.to_lowercase().nfkc()` (lower-casing first): %s" % (order_ok and not bad), fn=sl)
-    # range
+    # range — by role: (position, character) are the bindings of the loop over char_indices(), whatever they are called
+    from ..loops import iterations, chain
+    from ..db import is_local, deref_all, SWAP
+    from ..origins import pat_bindings
+    pos_lid = ch_lid = None
+    for itn in iterations(sl.hir):
+        names, _base = chain(db, sl, itn["it"])
+        if any(m == "char_indices" for m, _ in names) and itn["kind"] == "for":
+            pb = pat_bindings(itn["pat"])
+            if len(pb) >= 2:
+                pos_lid, ch_lid = pb[0][0], pb[1][0]
+    if pos_lid is None:
+        raise AnchorMissing("replace_slow: loop over char_indices()")
     n_calls = 0
     for c, ps in walk(sl.hir):
         if is_call(c) and path_ends(callee(c), "handle_normalization_slow"):
             a = call_args(c)
             n_calls += 1
-            ok = local_name(a[3]) == "offset" and render(a[4], x=True) == "ch.len_utf8()"
-            ctx.ob("replace_slow|range-args#%d" % n_calls, ok, "handle_normalization_slow(.., start=%s, len=%s, ..) must be (offset, ch.len_utf8())" % (render(a[3]), render(a[4])), fn=sl, site=c.get("sp"))
+            ln = peel(deref_all(a[4]))
+            ok = is_local(a[3], pos_lid) and isinstance(ln, dict) and ln.get("k") == "MethodCall" and ln.get("method") == "len_utf8" and is_local(ln["recv"], ch_lid)
+            ctx.ob("replace_slow|range-args#%d" % n_calls, ok, "handle_normalization_slow(.., start=%s, len=%s, ..) must be (loop position, loop character.len_utf8())" % (render(a[3]), render(a[4])), fn=sl, site=c.get("sp"))
     hn = db.one("handle_normalization_slow", PLUGIN)
+    hp = [p_.get("name") for p_ in (hn.info.get("params") or []) if isinstance(p_, dict)]
     for c, ps in walk(hn.hir):
-        if c.get("k") == "MethodCall" and c.get("method") == "replace_char_iter":
+        if c.get("k") == "MethodCall" and c.get("method") == "replace_char_iter" and len(hp) >= 5:
             from ..inline import range_bounds
-            ctx.ob("handle_normalization_slow|range", range_bounds(c["args"][0]) == ("start", "(len + start)"),
-                   "replacement range is `%s` (must be start..start+len)" % render(c["args"][0]), fn=hn)
-    # min_offset skip
-    conts = []
+            st, ln = hp[3], hp[4]
+            ctx.ob("handle_normalization_slow|range", range_bounds(c["args"][0]) in ((st, "(%s + %s)" % (ln, st)), (st, "(%s + %s)" % (st, ln))),
+                   "replacement range is `%s` (must be start..start+len, the 4th and 5th parameters)" % render(c["args"][0]), fn=hn)
+    # skip guard: `continue` while the loop position is below a watermark that is set to the end of the last table match
+    marks = set()
     for n, ps in walk(sl.hir):
         if n.get("k") == "If" and exit_kind(n["then"]) == "continue":
-            c = peel(n["cond"])
-            if c.get("k") == "Binary" and c.get("op") == "Lt" and local_name(c["l"]) == "offset" and local_name(c["r"]) == "min_offset":
-                conts.append(n)
-    assigned_from_end = any(n.get("k") == "Assign" and local_name(n["l"]) == "min_offset" and "end" in render(n["r"]) for n, _ in walk(sl.hir))
-    ctx.ob("replace_slow|skip-inside-previous-match", len(conts) == 1 and assigned_from_end,
-           "`if offset < min_offset { continue }` present: %s; min_offset := match end: %s" % (len(conts) == 1, assigned_from_end), fn=sl)
+            cm = cmp_atom(n["cond"])
+            if cm:
+                for l_, r_, op in ((cm[1], cm[2], cm[0]), (cm[2], cm[1], SWAP[cm[0]])):
+                    r2 = peel_casts(r_)
+                    if op == "Lt" and is_local(l_, pos_lid) and isinstance(r2, dict) and r2.get("res") == "local":
+                        marks.add(r2.get("lid"))
+
+    def is_end(e):
+        d = peel_casts(deref_all(e)) if isinstance(e, dict) else None
+        return isinstance(d, dict) and ((d.get("k") == "Field" and d.get("name") == "end") or (d.get("k") == "MethodCall" and d.get("method") == "end"))
+    assigned_from_end = any(n.get("k") == "Assign" and peel(n["l"]).get("lid") in marks and is_end(n["r"]) for n, _ in walk(sl.hir))
+    ctx.ob("replace_slow|skip-inside-previous-match", len(marks) == 1 and assigned_from_end,
+           "`if position < watermark { continue }` present: %s; watermark := match end: %s" % (len(marks) == 1, assigned_from_end), fn=sl)
     # the rewrite-table lookup is attempted at every position that is not inside the previous match
     finds = [(c, ps) for c, ps in walk(sl.hir) if c.get("k") == "MethodCall" and c.get("method") == "find" and "AhoCorasick" in (c.get("rty") or "")]
     if not finds:
@@ -374,9 +413,18 @@ def per_char(db, ctx):
                 loop_body = fl[2]
         pcs = path_conditions(c["id"], loop_body) if loop_body else None
         conds = [("" if p else "!") + render(a) for cn, pol in (pcs or []) if isinstance(cn, dict) for a, p in atoms(cn, pol)]
-        ok = pcs is not None and conds == ["!(offset < min_offset)"]
+
+        def is_skip(a, p):
+            """the atom is the watermark test (position vs watermark), in either spelling"""
+            cm_ = cmp_atom(a)
+            if not cm_:
+                return False
+            sides = (peel_casts(cm_[1]), peel_casts(cm_[2]))
+            return any(is_local(x, pos_lid) for x in sides) and any(isinstance(x, dict) and x.get("lid") in marks for x in sides)
+        ats = [(a, p) for cn, pol in (pcs or []) if isinstance(cn, dict) for a, p in atoms(cn, pol)]
+        ok = pcs is not None and len(ats) == 1 and is_skip(*ats[0])
         ctx.ob("replace_slow|lookup-at-every-position", ok,
-               "the table lookup `%s` is reached under %s (must be only !(offset < min_offset): a key must be tried at every position, whatever "
+               "the table lookup `%s` is reached under %s (must be only the watermark test !(position < watermark): a key must be tried at every position, whatever "
                "the character's own normalisation status)" % (render(c)[:50], conds), fn=sl, site=c.get("sp"))
     ctx.floor(7)
 
